@@ -2102,24 +2102,46 @@ Section Choosers.
   Notation ex := (explain unit nc_find nc_store cfg_nc u rfuel (fun _ _ => true)).
   Local Notation U l := (l unit nc_find nc_store cfg_nc u rfuel (fun _ _ => true)) (only parsing).
 
-  (** user code [ev] ran …  *)
-  Inductive allowed : expr -> event -> Prop :=
-  | al_here e c o evt : In c (choosers e) -> In evt (lg (ev c o)) -> allowed e evt
-      (* … inside the evaluation of a chooser-position sub-expression of [e] *)
-  | al_cond disp cases dflt c r o p x evt :
-      In (c, r) cases -> rs (ev c o) = Ok p -> In evt (lg (call_value unit u p x)) ->
-      allowed (ECase disp cases dflt) evt
-      (* … as the application of a case condition to the dispatch value *)
-  | al_sub e e' evt : In e' (subs e) -> allowed e' evt -> allowed e evt.
-      (* … for one of these reasons, in a sub-expression *)
+  (** sub-expressions reached under the SAME dictionary (everything except WithOptions and Map) *)
+  Definition plain (e : expr) : bool := match e with EWith _ _ _ | EMap _ _ => false | _ => true end.
 
-  Lemma only_chooser e c o : In c (choosers e) -> only (allowed e) (ev c o).
-  Proof. intros Hc evt Hin _. apply (al_here e c o evt Hc Hin). Qed.
-  Lemma only_sub {A} e e' (m : MU A) : In e' (subs e) -> only (allowed e') m -> only (allowed e) m.
-  Proof. intros Hs. apply only_mono. intros evt. now apply al_sub. Qed.
+  (** the dictionary under which validate/keys/explain of [e] under [o] reach the sub-expression
+      [e'] they descend into: the overlaid dictionary below WithOptions; below Map the dictionary of
+      one of the rows of option combinations (the iterables, and the repeated expression in
+      explain's fallback when the iterables cannot be evaluated, see [o] itself) *)
+  Definition reaches (e : expr) (o : dict) (e' : expr) (o' : dict) : Prop :=
+    match e with
+    | EWith f p e0 => e' = e0 /\ o' = with_opts f p o
+    | EMap e0 its =>
+        (In e' (map snd its) /\ o' = o) \/
+        (e' = e0 /\ (o' = o \/
+           exists rows row os, rs (map_rows unit (fun x => ev x o) its) = Ok rows /\ In row rows /\
+                               rs (row_options unit row) = Ok os /\ o' = with_opts true os o))
+    | _ => In e' (subs e) /\ o' = o
+    end.
+
+  (** user code [evt] ran, while validate/keys/explain of [e] ran under the dictionary [o], …  *)
+  Inductive allowed : expr -> dict -> event -> Prop :=
+  | al_here e o c evt : In c (choosers e) -> In evt (lg (ev c o)) -> allowed e o evt
+      (* … inside the evaluation, under [o], of a chooser-position sub-expression of [e] *)
+  | al_cond disp cases dflt o c r p x evt :
+      In (c, r) cases -> rs (ev c o) = Ok p -> rs (ev disp o) = Ok x -> In evt (lg (call_value unit u p x)) ->
+      allowed (ECase disp cases dflt) o evt
+      (* … as the application of a case condition (evaluated under [o]) to the dispatch value *)
+  | al_sub e o e' o' evt : reaches e o e' o' -> allowed e' o' evt -> allowed e o evt.
+      (* … for one of these reasons, in a sub-expression, under the dictionary that reaches it *)
+
+  Lemma only_chooser e c o : In c (choosers e) -> only (allowed e o) (ev c o).
+  Proof. intros Hc evt Hin _. apply (al_here e o c evt Hc Hin). Qed.
+  Lemma only_at {A} e o e' o' (m : MU A) : reaches e o e' o' -> only (allowed e' o') m -> only (allowed e o) m.
+  Proof. intros Hs. apply only_mono. intros evt. now apply (al_sub e o e' o'). Qed.
+  Lemma only_sub {A} e o e' (m : MU A) : plain e = true -> In e' (subs e) -> only (allowed e' o) m -> only (allowed e o) m.
+  Proof.
+    intros Hp Hs. apply only_at. destruct e; try discriminate Hp; cbn [reaches]; split; try exact Hs; reflexivity.
+  Qed.
 
   Definition runsQ (e : expr) : Prop :=
-    forall o, only (allowed e) (va e o) /\ only (allowed e) (ks e o) /\ only (allowed e) (ex e o).
+    forall o, only (allowed e o) (va e o) /\ only (allowed e o) (ks e o) /\ only (allowed e o) (ex e o).
 
   Lemma in_opt d : In d (opt_list (Some d)). Proof. now left. Qed.
 
@@ -2137,8 +2159,8 @@ Section Choosers.
   Lemma runs_option k dflt dom : Popt runsQ dflt -> runsQ (EOption k dflt dom).
   Proof.
     intros Hd o.
-    assert (Hsub : forall (A : Type) (m : MU A) d, dflt = Some d -> only (allowed d) m -> only (allowed (EOption k dflt dom)) m).
-    { intros A m d ->. apply (only_sub _ d). apply in_opt. }
+    assert (Hsub : forall (A : Type) (m : MU A) d, dflt = Some d -> only (allowed d o) m -> only (allowed (EOption k dflt dom) o) m).
+    { intros A m d ->. apply (only_sub (EOption k (Some d) dom) o d); [reflexivity|apply in_opt]. }
     split; [|split].
     - rewrite (U validate_EOption). apply only_bind; [apply quiet_only, quiet_rd|]. intros r Hr.
       rewrite rs_rd in Hr. inversion Hr; subst r. destruct (lookup k (JObj o)) as [raw| |] eqn:El; [| |apply only_fail].
@@ -2164,11 +2186,11 @@ Section Choosers.
     intros Ha Hb o. destruct (Ha o) as [Va [Ka Xa]]. destruct (Hb o) as [Vb [Kb Xb]].
     assert (Sa : In a (subs (EApply a b))) by now left. assert (Sb : In b (subs (EApply a b))) by (right; now left).
     split; [|split].
-    - rewrite (U validate_EApply). apply only_bind; [apply (only_sub _ a _ Sa Va)|intros; apply (only_sub _ b _ Sb Vb)].
-    - rewrite (U keys_EApply). apply only_bind; [apply (only_sub _ a _ Sa Ka)|intros].
-      apply only_bind; [apply (only_sub _ b _ Sb Kb)|intros; apply only_ret].
-    - rewrite (U explain_EApply). apply only_bind; [apply (only_sub _ a _ Sa Xa)|intros].
-      apply only_bind; [apply (only_sub _ b _ Sb Xb)|intros; apply only_ret].
+    - rewrite (U validate_EApply). apply only_bind; [apply (only_sub (EApply a b) o a _ eq_refl Sa Va)|intros; apply (only_sub (EApply a b) o b _ eq_refl Sb Vb)].
+    - rewrite (U keys_EApply). apply only_bind; [apply (only_sub (EApply a b) o a _ eq_refl Sa Ka)|intros].
+      apply only_bind; [apply (only_sub (EApply a b) o b _ eq_refl Sb Kb)|intros; apply only_ret].
+    - rewrite (U explain_EApply). apply only_bind; [apply (only_sub (EApply a b) o a _ eq_refl Sa Xa)|intros].
+      apply only_bind; [apply (only_sub (EApply a b) o b _ eq_refl Sb Xb)|intros; apply only_ret].
   Qed.
 
   Lemma sub_tbl {A} (x : expr) (tbl : list (A * expr)) dflt v b : In (v, b) tbl -> In b (x :: map snd tbl ++ opt_list dflt).
@@ -2181,20 +2203,20 @@ Section Choosers.
   Proof.
     intros Hs Ht Hd o. pose (e := EBind src tbl dflt).
     assert (Ssrc : In src (subs e)) by now left.
-    assert (Csrc : only (allowed e) (ev src o)) by (apply only_chooser; now left).
-    assert (Hpick : forall (A : Type) (m : expr -> MU A) x, (forall b, runsQ b -> only (allowed b) (m b)) ->
-              only (allowed e) (pick x m (match dflt with Some d => m d | None => fail unit (CUser 0) false end) tbl)).
+    assert (Csrc : only (allowed e o) (ev src o)) by (apply only_chooser; now left).
+    assert (Hpick : forall (A : Type) (m : expr -> MU A) x, (forall b, runsQ b -> only (allowed b o) (m b)) ->
+              only (allowed e o) (pick x m (match dflt with Some d => m d | None => fail unit (CUser 0) false end) tbl)).
     { intros A m x Hm. apply only_pick.
-      - intros v b Hin. apply (only_sub e b _ (sub_tbl src tbl dflt v b Hin)). apply Hm, (Forall_snd_In runsQ tbl v b Ht Hin).
-      - destruct dflt as [d|]; [|apply only_fail]. apply (only_sub e d _ (sub_dflt src _ d)). apply Hm, Hd. }
+      - intros v b Hin. apply (only_sub e o b _ eq_refl (sub_tbl src tbl dflt v b Hin)). apply Hm, (Forall_snd_In runsQ tbl v b Ht Hin).
+      - destruct dflt as [d|]; [|apply only_fail]. apply (only_sub e o d _ eq_refl (sub_dflt src _ d)). apply Hm, Hd. }
     split; [|split].
-    - rewrite (U validate_EBind). apply only_bind; [apply (only_sub e src _ Ssrc), (proj1 (Hs o))|]. intros _ _.
+    - rewrite (U validate_EBind). apply only_bind; [apply (only_sub e o src _ eq_refl Ssrc), (proj1 (Hs o))|]. intros _ _.
       apply only_bind; [exact Csrc|]. intros x _. apply (Hpick _ (fun b => va b o)). intros b Hb. apply (proj1 (Hb o)).
-    - rewrite (U keys_EBind). apply only_bind; [apply (only_sub e src _ Ssrc), (proj1 (proj2 (Hs o)))|]. intros a _.
+    - rewrite (U keys_EBind). apply only_bind; [apply (only_sub e o src _ eq_refl Ssrc), (proj1 (proj2 (Hs o)))|]. intros a _.
       apply only_bind; [exact Csrc|]. intros x _. apply only_bind; [|intros; apply only_ret].
       apply (Hpick _ (fun b => ks b o)). intros b Hb. apply (proj1 (proj2 (Hb o))).
     - rewrite (U explain_EBind). apply only_catch; [|intros c [|] _; apply only_fail].
-      apply only_bind; [apply (only_sub e src _ Ssrc), (proj2 (proj2 (Hs o)))|]. intros a _.
+      apply only_bind; [apply (only_sub e o src _ eq_refl Ssrc), (proj2 (proj2 (Hs o)))|]. intros a _.
       apply only_bind; [exact Csrc|]. intros x _. apply only_bind; [|intros; apply only_ret].
       apply (Hpick _ (fun b => ex b o)). intros b Hb. apply (proj2 (proj2 (Hb o))).
   Qed.
@@ -2211,15 +2233,15 @@ Section Choosers.
   Proof.
     intros Hs Ht Hd o. pose (e := ESwitch disp tbl dflt).
     assert (Sd : In disp (subs e)) by now left.
-    assert (Cd : only (allowed e) (dispatch_value unit (ev disp o) (is_some dflt))).
+    assert (Cd : only (allowed e o) (dispatch_value unit (ev disp o) (is_some dflt))).
     { apply only_dispatch. apply only_chooser. now left. }
-    assert (Hdf : forall (A : Type) (m : expr -> MU A) c ee, (forall b, runsQ b -> only (allowed b) (m b)) ->
-              only (allowed e) (match dflt with Some d => m d | None => fail unit c ee end)).
-    { intros A m c ee Hm. destruct dflt as [d|]; [|apply only_fail]. apply (only_sub e d _ (sub_dflt disp _ d)). apply Hm, Hd. }
-    assert (Hpick : forall (A : Type) (m : expr -> MU A) x c, (forall b, runsQ b -> only (allowed b) (m b)) ->
-              only (allowed e) (pick x m (match dflt with Some d => m d | None => fail unit c true end) tbl)).
+    assert (Hdf : forall (A : Type) (m : expr -> MU A) c ee, (forall b, runsQ b -> only (allowed b o) (m b)) ->
+              only (allowed e o) (match dflt with Some d => m d | None => fail unit c ee end)).
+    { intros A m c ee Hm. destruct dflt as [d|]; [|apply only_fail]. apply (only_sub e o d _ eq_refl (sub_dflt disp _ d)). apply Hm, Hd. }
+    assert (Hpick : forall (A : Type) (m : expr -> MU A) x c, (forall b, runsQ b -> only (allowed b o) (m b)) ->
+              only (allowed e o) (pick x m (match dflt with Some d => m d | None => fail unit c true end) tbl)).
     { intros A m x c Hm. apply only_pick; [|now apply Hdf].
-      intros v b Hin. apply (only_sub e b _ (sub_tbl disp tbl dflt v b Hin)). apply Hm, (Forall_snd_In runsQ tbl v b Ht Hin). }
+      intros v b Hin. apply (only_sub e o b _ eq_refl (sub_tbl disp tbl dflt v b Hin)). apply Hm, (Forall_snd_In runsQ tbl v b Ht Hin). }
     split; [|split].
     - rewrite (U validate_ESwitch). apply only_bind; [exact Cd|]. intros [k|] _.
       + destruct (negb (hashable k)); [apply only_fail|]. apply (Hpick _ (fun b => va b o)). intros b Hb. apply (proj1 (Hb o)).
@@ -2227,28 +2249,29 @@ Section Choosers.
     - rewrite (U keys_ESwitch). apply only_bind; [exact Cd|]. intros [k|] _.
       + destruct (negb (hashable k)); [apply only_fail|]. apply only_bind.
         * apply (Hpick _ (fun b => ks b o)). intros b Hb. apply (proj1 (proj2 (Hb o))).
-        * intros a _. apply only_bind; [apply (only_sub e disp _ Sd), (proj1 (proj2 (Hs o)))|intros; apply only_ret].
+        * intros a _. apply only_bind; [apply (only_sub e o disp _ eq_refl Sd), (proj1 (proj2 (Hs o)))|intros; apply only_ret].
       + apply (Hdf _ (fun b => ks b o)). intros b Hb. apply (proj1 (proj2 (Hb o))).
     - rewrite (U explain_ESwitch). apply only_bind.
       { apply only_catch; [exact Cd|intros c [|] _; apply only_fail]. }
       intros [k|] _.
       + destruct (negb (hashable k)); [apply only_fail|]. apply only_bind.
         * apply (Hpick _ (fun b => ex b o)). intros b Hb. apply (proj2 (proj2 (Hb o))).
-        * intros a _. apply only_bind; [apply (only_sub e disp _ Sd), (proj2 (proj2 (Hs o)))|intros; apply only_ret].
+        * intros a _. apply only_bind; [apply (only_sub e o disp _ eq_refl Sd), (proj2 (proj2 (Hs o)))|intros; apply only_ret].
       + apply (Hdf _ (fun b => ex b o)). intros b Hb. apply (proj2 (proj2 (Hb o))).
   Qed.
 
   Lemma only_case_go {A} disp cases dflt x o (onres : expr -> MU A) dm :
-    (forall c r, In (c, r) cases -> only (allowed (ECase disp cases dflt)) (onres r)) ->
-    only (allowed (ECase disp cases dflt)) dm ->
-    forall cs, incl cs cases -> only (allowed (ECase disp cases dflt)) (case_go u rfuel x o onres dm cs).
+    rs (ev disp o) = Ok x ->
+    (forall c r, In (c, r) cases -> only (allowed (ECase disp cases dflt) o) (onres r)) ->
+    only (allowed (ECase disp cases dflt) o) dm ->
+    forall cs, incl cs cases -> only (allowed (ECase disp cases dflt) o) (case_go u rfuel x o onres dm cs).
   Proof.
-    intros Hr Hdm. induction cs as [|[c r] cs IH]; intros Hi; [exact Hdm|].
+    intros Hx Hr Hdm. induction cs as [|[c r] cs IH]; intros Hi; [exact Hdm|].
     assert (Hin : In (c, r) cases) by (apply Hi; now left).
     cbn [case_go]. apply only_bind.
     - apply only_chooser. right. apply (in_map fst cases (c, r) Hin).
     - intros p Hp. apply only_bind.
-      + intros evt Hev _. apply (al_cond disp cases dflt c r o p x evt Hin Hp Hev).
+      + intros evt Hev _. apply (al_cond disp cases dflt o c r p x evt Hin Hp Hx Hev).
       + intros b _. destruct (truthy b); [apply (Hr c r Hin)|]. apply IH. intros y Hy. apply Hi. now right.
   Qed.
 
@@ -2257,22 +2280,22 @@ Section Choosers.
   Proof.
     intros Hs Hc Hd o. pose (e := ECase disp cases dflt). rewrite Forall_forall in Hc.
     assert (Sd : In disp (subs e)) by now left.
-    assert (Cd : only (allowed e) (ev disp o)) by (apply only_chooser; now left).
-    assert (Hgo : forall (A : Type) (m : expr -> MU A) x c ee, (forall b, runsQ b -> only (allowed b) (m b)) ->
-              only (allowed e) (case_go u rfuel x o m (dflt_or dflt m c ee) cases)).
-    { intros A m x c ee Hm. apply only_case_go; [| |apply incl_refl].
-      - intros c0 r Hin. apply (only_sub e r _ (sub_tbl disp cases dflt c0 r Hin)). apply Hm, (proj2 (Hc (c0, r) Hin)).
-      - unfold dflt_or. destruct dflt as [d|]; [|apply only_fail]. apply (only_sub e d _ (sub_dflt disp _ d)). apply Hm, Hd. }
+    assert (Cd : only (allowed e o) (ev disp o)) by (apply only_chooser; now left).
+    assert (Hgo : forall (A : Type) (m : expr -> MU A) x c ee, rs (ev disp o) = Ok x -> (forall b, runsQ b -> only (allowed b o) (m b)) ->
+              only (allowed e o) (case_go u rfuel x o m (dflt_or dflt m c ee) cases)).
+    { intros A m x c ee Hx Hm. apply only_case_go; [exact Hx| | |apply incl_refl].
+      - intros c0 r Hin. apply (only_sub e o r _ eq_refl (sub_tbl disp cases dflt c0 r Hin)). apply Hm, (proj2 (Hc (c0, r) Hin)).
+      - unfold dflt_or. destruct dflt as [d|]; [|apply only_fail]. apply (only_sub e o d _ eq_refl (sub_dflt disp _ d)). apply Hm, Hd. }
     split; [|split].
-    - rewrite va_case. apply only_bind; [apply (only_sub e disp _ Sd), (proj1 (Hs o))|]. intros _ _.
-      apply only_bind; [exact Cd|]. intros x _. apply (Hgo _ (fun r => va r o)). intros b Hb. apply (proj1 (Hb o)).
-    - rewrite ks_case. apply only_bind; [apply (only_sub e disp _ Sd), (proj1 (proj2 (Hs o)))|]. intros a _.
-      apply only_bind; [exact Cd|]. intros x _. apply only_bind; [|intros; apply only_ret].
-      apply (Hgo _ (fun r => ks r o)). intros b Hb. apply (proj1 (proj2 (Hb o))).
+    - rewrite va_case. apply only_bind; [apply (only_sub e o disp _ eq_refl Sd), (proj1 (Hs o))|]. intros _ _.
+      apply only_bind; [exact Cd|]. intros x Hx. apply (Hgo _ (fun r => va r o) x _ _ Hx). intros b Hb. apply (proj1 (Hb o)).
+    - rewrite ks_case. apply only_bind; [apply (only_sub e o disp _ eq_refl Sd), (proj1 (proj2 (Hs o)))|]. intros a _.
+      apply only_bind; [exact Cd|]. intros x Hx. apply only_bind; [|intros; apply only_ret].
+      apply (Hgo _ (fun r => ks r o) x _ _ Hx). intros b Hb. apply (proj1 (proj2 (Hb o))).
     - rewrite ex_case. apply only_catch; [|intros c [|] _; apply only_fail].
-      apply only_bind; [apply (only_sub e disp _ Sd), (proj2 (proj2 (Hs o)))|]. intros a _.
-      apply only_bind; [exact Cd|]. intros x _. apply only_bind; [|intros; apply only_ret].
-      apply (Hgo _ (fun r => ex r o)). intros b Hb. apply (proj2 (proj2 (Hb o))).
+      apply only_bind; [apply (only_sub e o disp _ eq_refl Sd), (proj2 (proj2 (Hs o)))|]. intros a _.
+      apply only_bind; [exact Cd|]. intros x Hx. apply only_bind; [|intros; apply only_ret].
+      apply (Hgo _ (fun r => ex r o) x _ _ Hx). intros b Hb. apply (proj2 (proj2 (Hb o))).
   Qed.
 
   Lemma only_coal_go {A} P o (act : expr -> MU A) ms :
@@ -2302,18 +2325,18 @@ Section Choosers.
   Lemma runs_coalesce ms : Forall runsQ ms -> runsQ (ECoalesce ms).
   Proof.
     intros HQ o. pose (e := ECoalesce ms). rewrite Forall_forall in HQ.
-    assert (Hm : forall (A : Type) (act : expr -> MU A), (forall b, runsQ b -> only (allowed b) (act b)) ->
-              forall m, In m ms -> only (allowed e) (va m o) /\ only (allowed e) (act m)).
-    { intros A act Ha m Hin. split; apply (only_sub e m _ Hin); [apply (proj1 (HQ m Hin o))|apply Ha, (HQ m Hin)]. }
+    assert (Hm : forall (A : Type) (act : expr -> MU A), (forall b, runsQ b -> only (allowed b o) (act b)) ->
+              forall m, In m ms -> only (allowed e o) (va m o) /\ only (allowed e o) (act m)).
+    { intros A act Ha m Hin. split; apply (only_sub e o m _ eq_refl Hin); [apply (proj1 (HQ m Hin o))|apply Ha, (HQ m Hin)]. }
     split; [|split].
     - rewrite va_coalesce. apply only_coal_go. apply (Hm _ (fun m => va m o)). intros b Hb. apply (proj1 (Hb o)).
     - rewrite ks_coalesce. apply only_coal_go. apply (Hm _ (fun m => ks m o)). intros b Hb. apply (proj1 (proj2 (Hb o))).
     - rewrite ex_coalesce. apply only_catch.
       + apply only_coal_go. apply (Hm _ (fun m => ex m o)). intros b Hb. apply (proj2 (proj2 (Hb o))).
       + intros c [|] _; [|apply only_fail].
-        assert (G : forall l, incl l ms -> only (allowed e) (last_go o l)).
+        assert (G : forall l, incl l ms -> only (allowed e o) (last_go o l)).
         { induction l as [|m [|m' l] IH]; intros Hi; [apply only_fail| |].
-          - cbn [last_go]. apply (only_sub e m _ (Hi m (or_introl eq_refl))), (proj2 (proj2 (HQ m (Hi m (or_introl eq_refl)) o))).
+          - cbn [last_go]. apply (only_sub e o m _ eq_refl (Hi m (or_introl eq_refl))), (proj2 (proj2 (HQ m (Hi m (or_introl eq_refl)) o))).
           - apply IH. intros y Hy. apply Hi. now right. }
         apply G, incl_refl.
   Qed.
@@ -2321,61 +2344,68 @@ Section Choosers.
   Lemma runs_iter es : Forall runsQ es -> runsQ (EIter es).
   Proof.
     intros HQ o. rewrite Forall_forall in HQ. split; [|split].
-    - rewrite (U validate_EIter). apply only_iterM. intros x Hx. apply (only_sub (EIter es) x _ Hx), (proj1 (HQ x Hx o)).
-    - rewrite (U keys_EIter). apply only_unionM. intros x Hx. apply (only_sub (EIter es) x _ Hx), (proj1 (proj2 (HQ x Hx o))).
-    - rewrite (U explain_EIter). apply only_unionM. intros x Hx. apply (only_sub (EIter es) x _ Hx), (proj2 (proj2 (HQ x Hx o))).
+    - rewrite (U validate_EIter). apply only_iterM. intros x Hx. apply (only_sub (EIter es) o x _ eq_refl Hx), (proj1 (HQ x Hx o)).
+    - rewrite (U keys_EIter). apply only_unionM. intros x Hx. apply (only_sub (EIter es) o x _ eq_refl Hx), (proj1 (proj2 (HQ x Hx o))).
+    - rewrite (U explain_EIter). apply only_unionM. intros x Hx. apply (only_sub (EIter es) o x _ eq_refl Hx), (proj2 (proj2 (HQ x Hx o))).
   Qed.
 
   Lemma runs_map e0 its : runsQ e0 -> Forall (fun ke => runsQ (snd ke)) its -> runsQ (EMap e0 its).
   Proof.
     intros He Hi o. pose (e := EMap e0 its). rewrite Forall_forall in Hi.
-    assert (Se : In e0 (subs e)) by now left.
-    assert (Sit : forall kv, In kv its -> In (snd kv) (subs e)) by (intros kv H; right; apply (in_map snd its kv H)).
-    assert (Rows : only (allowed e) (map_rows unit (fun x => ev x o) its)).
+    assert (Sit : forall kv, In kv its -> reaches e o (snd kv) o).
+    { intros kv H. left. split; [apply (in_map snd its kv H)|reflexivity]. }
+    assert (Sfall : reaches e o e0 o) by (right; split; [reflexivity|now left]).
+    assert (Rows : only (allowed e o) (map_rows unit (fun x => ev x o) its)).
     { unfold map_rows. apply only_bind; [|intros; apply only_ret]. apply only_mapM. intros kv Hkv.
       apply only_bind; [apply only_chooser, (in_map snd its kv Hkv)|intros; apply quiet_only, quiet_force]. }
-    assert (Hits : forall (m : expr -> MU (list key)), (forall b, runsQ b -> only (allowed b) (m b)) ->
-              only (allowed e) (unionM unit (fun kv : key * expr => m (snd kv)) its)).
-    { intros m Hm. apply only_unionM. intros kv Hkv. apply (only_sub e (snd kv) _ (Sit kv Hkv)). apply Hm, (Hi kv Hkv). }
-    assert (Hrow : forall (m : expr -> dict -> MU (list key)), (forall d, only (allowed e0) (m e0 d)) -> forall rows,
-              only (allowed e) (unionM unit (fun row => bind unit (row_options unit row) (fun os =>
+    assert (Hits : forall (m : expr -> MU (list key)), (forall b, runsQ b -> only (allowed b o) (m b)) ->
+              only (allowed e o) (unionM unit (fun kv : key * expr => m (snd kv)) its)).
+    { intros m Hm. apply only_unionM. intros kv Hkv. apply (only_at e o (snd kv) o _ (Sit kv Hkv)). apply Hm, (Hi kv Hkv). }
+    assert (Srow : forall rows row os, rs (map_rows unit (fun x => ev x o) its) = Ok rows -> In row rows ->
+              rs (row_options unit row) = Ok os -> reaches e o e0 (with_opts true os o)).
+    { intros rows row os Hr Hin Hos. right. split; [reflexivity|]. right. now exists rows, row, os. }
+    assert (Hrow : forall (m : expr -> dict -> MU (list key)), (forall d, only (allowed e0 d) (m e0 d)) -> forall rows,
+              rs (map_rows unit (fun x => ev x o) its) = Ok rows ->
+              only (allowed e o) (unionM unit (fun row => bind unit (row_options unit row) (fun os =>
                  let mixed := with_opts true os o in bind unit (m e0 mixed) (fun l => filter_preset unit true os o mixed l))) rows)).
-    { intros m Hm rows. apply only_unionM. intros row _. apply only_bind; [apply quiet_only, quiet_row_options|]. intros os _.
-      cbv zeta. apply only_bind; [apply (only_sub e e0 _ Se), Hm|intros; apply quiet_only, quiet_filter_preset]. }
+    { intros m Hm rows Hr. apply only_unionM. intros row Hin. apply only_bind; [apply quiet_only, quiet_row_options|]. intros os Hos.
+      cbv zeta. apply only_bind; [apply (only_at e o e0 _ _ (Srow rows row os Hr Hin Hos)), Hm|intros; apply quiet_only, quiet_filter_preset]. }
     split; [|split].
-    - rewrite (U validate_EMap). apply only_bind; [exact Rows|]. intros rows _. apply only_iterM. intros row _.
-      apply only_bind; [apply quiet_only, quiet_row_options|]. intros os _. apply (only_sub e e0 _ Se), (proj1 (He _)).
-    - rewrite (U keys_EMap). apply only_bind; [exact Rows|]. intros rows _.
-      apply only_bind; [apply (Hrow (fun x d => ks x d)); intros d; apply (proj1 (proj2 (He d)))|]. intros a _.
+    - rewrite (U validate_EMap). apply only_bind; [exact Rows|]. intros rows Hr. apply only_iterM. intros row Hin.
+      apply only_bind; [apply quiet_only, quiet_row_options|]. intros os Hos.
+      apply (only_at e o e0 _ _ (Srow rows row os Hr Hin Hos)), (proj1 (He _)).
+    - rewrite (U keys_EMap). apply only_bind; [exact Rows|]. intros rows Hr.
+      apply only_bind; [apply (Hrow (fun x d => ks x d)); [intros d; apply (proj1 (proj2 (He d)))|exact Hr]|]. intros a _.
       apply only_bind; [|intros; apply only_ret]. apply (Hits (fun x => ks x o)). intros b Hb. apply (proj1 (proj2 (Hb o))).
     - rewrite (U explain_EMap). apply only_catch.
-      + apply only_bind; [exact Rows|]. intros rows _.
-        apply only_bind; [apply (Hrow (fun x d => ex x d)); intros d; apply (proj2 (proj2 (He d)))|]. intros a _.
+      + apply only_bind; [exact Rows|]. intros rows Hr.
+        apply only_bind; [apply (Hrow (fun x d => ex x d)); [intros d; apply (proj2 (proj2 (He d)))|exact Hr]|]. intros a _.
         apply only_bind; [|intros; apply only_ret]. apply (Hits (fun x => ex x o)). intros b Hb. apply (proj2 (proj2 (Hb o))).
-      + intros c [|] _; [|apply only_fail]. apply only_bind; [apply (only_sub e e0 _ Se), (proj2 (proj2 (He o)))|]. intros a _.
+      + intros c [|] _; [|apply only_fail]. apply only_bind; [apply (only_at e o e0 o _ Sfall), (proj2 (proj2 (He o)))|]. intros a _.
         apply only_bind; [|intros; apply only_ret]. apply (Hits (fun x => ex x o)). intros b Hb. apply (proj2 (proj2 (Hb o))).
   Qed.
 
   Lemma runs_with f p e0 : runsQ e0 -> runsQ (EWith f p e0).
   Proof.
-    intros He o. assert (Se : In e0 (subs (EWith f p e0))) by now left. split; [|split].
-    - rewrite (U validate_EWith). apply (only_sub _ e0 _ Se), (proj1 (He _)).
-    - rewrite (U keys_EWith). cbv zeta. apply only_bind; [apply (only_sub _ e0 _ Se), (proj1 (proj2 (He _)))|intros; apply quiet_only, quiet_filter_preset].
-    - rewrite (U explain_EWith). cbv zeta. apply only_bind; [apply (only_sub _ e0 _ Se), (proj2 (proj2 (He _)))|intros; apply quiet_only, quiet_filter_preset].
+    intros He o.
+    assert (Se : reaches (EWith f p e0) o e0 (with_opts f p o)) by (split; reflexivity). split; [|split].
+    - rewrite (U validate_EWith). apply (only_at _ _ _ _ _ Se), (proj1 (He _)).
+    - rewrite (U keys_EWith). cbv zeta. apply only_bind; [apply (only_at _ _ _ _ _ Se), (proj1 (proj2 (He _)))|intros; apply quiet_only, quiet_filter_preset].
+    - rewrite (U explain_EWith). cbv zeta. apply only_bind; [apply (only_at _ _ _ _ _ Se), (proj2 (proj2 (He _)))|intros; apply quiet_only, quiet_filter_preset].
   Qed.
   Lemma runs_cached c e0 : runsQ e0 -> runsQ (ECached c e0).
   Proof.
     intros He o. assert (Se : In e0 (subs (ECached c e0))) by now left. split; [|split].
-    - rewrite va_cached. apply (only_sub _ e0 _ Se), (proj1 (He _)).
-    - change (ks (ECached c e0) o) with (ks e0 o). apply (only_sub _ e0 _ Se), (proj1 (proj2 (He _))).
-    - change (ex (ECached c e0) o) with (ex e0 o). apply (only_sub _ e0 _ Se), (proj2 (proj2 (He _))).
+    - rewrite va_cached. apply (only_sub (ECached c e0) o e0 _ eq_refl Se), (proj1 (He _)).
+    - change (ks (ECached c e0) o) with (ks e0 o). apply (only_sub (ECached c e0) o e0 _ eq_refl Se), (proj1 (proj2 (He _))).
+    - change (ex (ECached c e0) o) with (ex e0 o). apply (only_sub (ECached c e0) o e0 _ eq_refl Se), (proj2 (proj2 (He _))).
   Qed.
   Lemma runs_logged e0 : runsQ e0 -> runsQ (ELogged e0).
   Proof.
     intros He o. assert (Se : In e0 (subs (ELogged e0))) by now left. split; [|split].
-    - change (va (ELogged e0) o) with (va e0 o). apply (only_sub _ e0 _ Se), (proj1 (He _)).
-    - change (ks (ELogged e0) o) with (ks e0 o). apply (only_sub _ e0 _ Se), (proj1 (proj2 (He _))).
-    - change (ex (ELogged e0) o) with (ex e0 o). apply (only_sub _ e0 _ Se), (proj2 (proj2 (He _))).
+    - change (va (ELogged e0) o) with (va e0 o). apply (only_sub (ELogged e0) o e0 _ eq_refl Se), (proj1 (He _)).
+    - change (ks (ELogged e0) o) with (ks e0 o). apply (only_sub (ELogged e0) o e0 _ eq_refl Se), (proj1 (proj2 (He _))).
+    - change (ex (ELogged e0) o) with (ex e0 o). apply (only_sub (ELogged e0) o e0 _ eq_refl Se), (proj2 (proj2 (He _))).
   Qed.
 
   Lemma runs_call pa f args kwargs : runsQ f -> Forall runsQ args -> Forall runsQ kwargs -> runsQ (ECall pa f args kwargs).
@@ -2385,15 +2415,15 @@ Section Choosers.
     assert (Sa : forall x, In x args -> In x (subs e)) by (intros x H; right; apply in_or_app; now left).
     assert (Sk : forall x, In x kwargs -> In x (subs e)) by (intros x H; right; apply in_or_app; now right).
     split; [|split].
-    - rewrite (U validate_ECall). apply only_bind; [apply (only_sub e f _ Sf), (proj1 (Hf o))|]. intros _ _.
-      apply only_bind; [apply only_iterM; intros x Hx; apply (only_sub e x _ (Sa x Hx)), (proj1 (Ha x Hx o))|]. intros _ _.
-      apply only_iterM; intros x Hx; apply (only_sub e x _ (Sk x Hx)), (proj1 (Hk x Hx o)).
-    - rewrite (U keys_ECall). apply only_bind; [apply (only_sub e f _ Sf), (proj1 (proj2 (Hf o)))|]. intros a _.
-      apply only_bind; [apply only_unionM; intros x Hx; apply (only_sub e x _ (Sa x Hx)), (proj1 (proj2 (Ha x Hx o)))|]. intros b _.
-      apply only_bind; [apply only_unionM; intros x Hx; apply (only_sub e x _ (Sk x Hx)), (proj1 (proj2 (Hk x Hx o)))|intros; apply only_ret].
-    - rewrite (U explain_ECall). apply only_bind; [apply (only_sub e f _ Sf), (proj2 (proj2 (Hf o)))|]. intros a _.
-      apply only_bind; [apply only_unionM; intros x Hx; apply (only_sub e x _ (Sa x Hx)), (proj2 (proj2 (Ha x Hx o)))|]. intros b _.
-      apply only_bind; [apply only_unionM; intros x Hx; apply (only_sub e x _ (Sk x Hx)), (proj2 (proj2 (Hk x Hx o)))|intros; apply only_ret].
+    - rewrite (U validate_ECall). apply only_bind; [apply (only_sub e o f _ eq_refl Sf), (proj1 (Hf o))|]. intros _ _.
+      apply only_bind; [apply only_iterM; intros x Hx; apply (only_sub e o x _ eq_refl (Sa x Hx)), (proj1 (Ha x Hx o))|]. intros _ _.
+      apply only_iterM; intros x Hx; apply (only_sub e o x _ eq_refl (Sk x Hx)), (proj1 (Hk x Hx o)).
+    - rewrite (U keys_ECall). apply only_bind; [apply (only_sub e o f _ eq_refl Sf), (proj1 (proj2 (Hf o)))|]. intros a _.
+      apply only_bind; [apply only_unionM; intros x Hx; apply (only_sub e o x _ eq_refl (Sa x Hx)), (proj1 (proj2 (Ha x Hx o)))|]. intros b _.
+      apply only_bind; [apply only_unionM; intros x Hx; apply (only_sub e o x _ eq_refl (Sk x Hx)), (proj1 (proj2 (Hk x Hx o)))|intros; apply only_ret].
+    - rewrite (U explain_ECall). apply only_bind; [apply (only_sub e o f _ eq_refl Sf), (proj2 (proj2 (Hf o)))|]. intros a _.
+      apply only_bind; [apply only_unionM; intros x Hx; apply (only_sub e o x _ eq_refl (Sa x Hx)), (proj2 (proj2 (Ha x Hx o)))|]. intros b _.
+      apply only_bind; [apply only_unionM; intros x Hx; apply (only_sub e o x _ eq_refl (Sk x Hx)), (proj2 (proj2 (Hk x Hx o)))|intros; apply only_ret].
   Qed.
 
   Lemma runs_template s ps : Forall (fun pe => runsQ (snd pe)) ps -> runsQ (ETemplate s ps).
@@ -2402,16 +2432,16 @@ Section Choosers.
     assert (Sp : forall pe, In pe ps -> In (snd pe) (subs e)) by (intros pe H; apply (in_map snd ps pe H)).
     split; [|split].
     - rewrite (U validate_ETemplate). apply only_bind.
-      + apply only_iterM. intros pe Hpe. apply (only_sub e (snd pe) _ (Sp pe Hpe)), (proj1 (HQ pe Hpe o)).
+      + apply only_iterM. intros pe Hpe. apply (only_sub e o (snd pe) _ eq_refl (Sp pe Hpe)), (proj1 (HQ pe Hpe o)).
       + intros _ _. apply only_iterM. intros k _. apply only_bind; [apply quiet_only, quiet_rd|]. intros r _.
         destruct r as [raw| |]; [|apply only_fail|apply only_fail].
         apply only_bind; [apply quiet_only, quiet_emit_reads|]. intros _ _.
         apply only_bind; [apply only_wrap, quiet_only, quiet_of_rres|intros; apply only_ret].
     - rewrite (U keys_ETemplate). apply only_bind.
-      + apply only_unionM. intros pe Hpe. apply (only_sub e (snd pe) _ (Sp pe Hpe)), (proj1 (proj2 (HQ pe Hpe o))).
+      + apply only_unionM. intros pe Hpe. apply (only_sub e o (snd pe) _ eq_refl (Sp pe Hpe)), (proj1 (proj2 (HQ pe Hpe o))).
       + intros a _. apply only_bind; [|intros; apply only_ret]. apply only_unionM. intros k _. apply quiet_only, quiet_ref_keys.
     - rewrite (U explain_ETemplate). apply only_bind.
-      + apply only_unionM. intros pe Hpe. apply (only_sub e (snd pe) _ (Sp pe Hpe)), (proj2 (proj2 (HQ pe Hpe o))).
+      + apply only_unionM. intros pe Hpe. apply (only_sub e o (snd pe) _ eq_refl (Sp pe Hpe)), (proj2 (proj2 (HQ pe Hpe o))).
       + intros a _. apply only_bind; [|intros; apply only_ret]. apply only_unionM. intros k _. apply quiet_only, quiet_ref_keys.
   Qed.
 
@@ -2421,20 +2451,20 @@ Section Choosers.
     assert (Se : In e0 (subs e)) by now left.
     assert (Sf : forall x, In x effs -> In x (subs e)) by (intros x H; now right).
     split; [|split].
-    - rewrite (U validate_EComp). apply only_bind; [apply (only_sub e e0 _ Se), (proj1 (He o))|]. intros _ _.
-      destruct (effects_opt_off o); [apply only_ret|]. apply only_iterM. intros x Hx. apply (only_sub e x _ (Sf x Hx)), (proj1 (Hf x Hx o)).
-    - change (ks e o) with (ks e0 o). apply (only_sub e e0 _ Se), (proj1 (proj2 (He o))).
-    - rewrite (U explain_EComp). apply only_bind; [apply (only_sub e e0 _ Se), (proj2 (proj2 (He o)))|]. intros a _.
+    - rewrite (U validate_EComp). apply only_bind; [apply (only_sub e o e0 _ eq_refl Se), (proj1 (He o))|]. intros _ _.
+      destruct (effects_opt_off o); [apply only_ret|]. apply only_iterM. intros x Hx. apply (only_sub e o x _ eq_refl (Sf x Hx)), (proj1 (Hf x Hx o)).
+    - change (ks e o) with (ks e0 o). apply (only_sub e o e0 _ eq_refl Se), (proj1 (proj2 (He o))).
+    - rewrite (U explain_EComp). apply only_bind; [apply (only_sub e o e0 _ eq_refl Se), (proj2 (proj2 (He o)))|]. intros a _.
       destruct (effects_opt_off o); [apply only_ret|]. apply only_bind; [|intros; apply only_ret].
-      apply only_unionM. intros x Hx. apply (only_sub e x _ (Sf x Hx)), (proj2 (proj2 (Hf x Hx o))).
+      apply only_unionM. intros x Hx. apply (only_sub e o x _ eq_refl (Sf x Hx)), (proj2 (proj2 (Hf x Hx o))).
   Qed.
 
   Lemma runs_pipe steps : Forall runsQ steps -> runsQ (EPipe steps).
   Proof.
     intros HQ o. rewrite Forall_forall in HQ. split; [|split].
-    - rewrite (U validate_EPipe). apply only_iterM. intros x Hx. apply (only_sub (EPipe steps) x _ Hx), (proj1 (HQ x Hx o)).
-    - rewrite (U keys_EPipe). apply only_unionM. intros x Hx. apply (only_sub (EPipe steps) x _ Hx), (proj1 (proj2 (HQ x Hx o))).
-    - rewrite (U explain_EPipe). apply only_unionM. intros x Hx. apply (only_sub (EPipe steps) x _ Hx), (proj2 (proj2 (HQ x Hx o))).
+    - rewrite (U validate_EPipe). apply only_iterM. intros x Hx. apply (only_sub (EPipe steps) o x _ eq_refl Hx), (proj1 (HQ x Hx o)).
+    - rewrite (U keys_EPipe). apply only_unionM. intros x Hx. apply (only_sub (EPipe steps) o x _ eq_refl Hx), (proj1 (proj2 (HQ x Hx o))).
+    - rewrite (U explain_EPipe). apply only_unionM. intros x Hx. apply (only_sub (EPipe steps) o x _ eq_refl Hx), (proj2 (proj2 (HQ x Hx o))).
   Qed.
 
   Lemma runs_all : runsQ EAllOptions.
@@ -2475,12 +2505,20 @@ Inductive reach : expr -> expr -> Prop :=
 | reach_refl e : reach e e
 | reach_step e e' e'' : In e' (subs e) -> reach e' e'' -> reach e e''.
 
-Lemma allowed_has_chooser u rfuel e evt : allowed u rfuel e evt -> exists e', reach e e' /\ choosers e' <> [].
+Lemma reaches_sub u rfuel e o e' o' : reaches u rfuel e o e' o' -> In e' (subs e).
 Proof.
-  induction 1 as [e c o evt Hc _|disp cases dflt c r o p x evt _ _ _|e e' evt Hs _ IH].
+  destruct e; cbn [reaches subs]; try (now intros [H _]).
+  - intros [[H _]|[-> _]]; [now right|now left].
+  - intros [-> _]. now left.
+Qed.
+
+Lemma allowed_has_chooser u rfuel e o evt : allowed u rfuel e o evt -> exists e', reach e e' /\ choosers e' <> [].
+Proof.
+  induction 1 as [e o c evt Hc _|disp cases dflt o c r p x evt _ _ _ _|e o e' o' evt Hs _ IH].
   - exists e. split; [constructor|]. intros E. rewrite E in Hc. destruct Hc.
   - exists (ECase disp cases dflt). split; [constructor|discriminate].
-  - destruct IH as [e'' [Hr Hc]]. exists e''. split; [now apply (reach_step e e' e'')|exact Hc].
+  - destruct IH as [e'' [Hr Hc]]. exists e''. split; [|exact Hc].
+    apply (reach_step e e' e''); [apply (reaches_sub u rfuel e o e' o' Hs)|exact Hr].
 Qed.
 
 Lemma validate_nc_lg u fuel e o :
@@ -2496,7 +2534,7 @@ Proof. unfold explain_nc, lg. destruct (explain _ _ _ _ _ _ _ e o tt) as [[r s] 
 Theorem runs_only_choosers_nc u fuel e o evt :
   is_call evt = true ->
   In evt (snd (validate_nc u fuel e o)) \/ In evt (snd (keys_nc u fuel e o)) \/ In evt (snd (explain_nc u fuel e o)) ->
-  allowed u fuel e evt.
+  allowed u fuel e o evt.
 Proof.
   intros Hc H. rewrite validate_nc_lg, keys_nc_lg, explain_nc_lg in H.
   destruct (runs_only_choosers u fuel e o) as [Hv [Hk Hx]].
@@ -2509,6 +2547,6 @@ Theorem chooser_free_runs_nothing_nc u fuel e o evt :
   is_call evt = false.
 Proof.
   intros Hfree H. destruct (is_call evt) eqn:Hc; [|reflexivity]. exfalso.
-  destruct (allowed_has_chooser u fuel e evt (runs_only_choosers_nc u fuel e o evt Hc H)) as [e' [Hr Hne]].
+  destruct (allowed_has_chooser u fuel e o evt (runs_only_choosers_nc u fuel e o evt Hc H)) as [e' [Hr Hne]].
   apply Hne, (Hfree e' Hr).
 Qed.
